@@ -19,6 +19,7 @@ func init() {
 			{ID: "C17.R1", Floor: 6, Run: c17r1, Text: "field coverage: each run-state field of entityPool (derived as in C15.R1) is read by DumpEntities and written by LoadEntities; LoadEntities also writes World.entities and World.targetEntities and allocates a row per alive id, storing (table,row) into the index"},
 			{ID: "C17.R2", Floor: 2, Run: c17r2, Text: "load guard: every write of LoadEntities is dominated by the lock test and by `len(pool) > 1 || available > 0 → panic`"},
 			{ID: "C17.R3", Floor: 4, Run: c17r3, Text: "JSON: MarshalJSON builds the array from (id, gen) in this order; UnmarshalJSON stores arr[0] into id and arr[1] into gen on every path that returns a nil error, and writes the entity in no other way"},
+			{ID: "C17.R5", Floor: 2, Run: c17r5, Text: "the dump is a copy: the slices DumpEntities puts into the EntityDump derive only from make/append-to-fresh, never from the pool's own storage"},
 			{ID: "C17.R4", Floor: 2, Run: c17r4, Text: "no alias of the dump: the slices LoadEntities stores into the pool and the index derive only from make/append-to-fresh, never from a field of the parameter"},
 		},
 	})
@@ -679,8 +680,28 @@ func c02r6(p *Prog, r *Reporter) {
 	for _, fn := range p.Funcs {
 		for _, site := range callsIn(fn) {
 			bi, ok := site.Common().Value.(*ssa.Builtin)
-			if !ok || bi.Name() != "copy" {
+			if !ok || (bi.Name() != "copy" && bi.Name() != "append") {
 				continue
+			}
+			if bi.Name() == "append" {
+				// only growth of pool/index storage: append(fresh, old[k:]...) in methods of the pools and of World
+				rt := typeName(recvType(fn))
+				if !(strings.HasSuffix(rt, "Pool") || strings.HasPrefix(rt, "intPool") || rt == "World") {
+					continue
+				}
+				if len(site.Common().Args) != 2 {
+					continue
+				}
+				sl, isSl := site.Common().Args[1].(*ssa.Slice)
+				if !isSl {
+					continue
+				}
+				// handle storage only: element type Entity / entityIndex, or any slice of a pool type
+				if st, ok := sl.Type().Underlying().(*types.Slice); ok && rt == "World" {
+					if en := typeName(st.Elem()); en != "Entity" && en != "entityIndex" {
+						continue
+					}
+				}
 			}
 			name := p.FuncName(fn)
 			bad := ""
@@ -689,7 +710,7 @@ func c02r6(p *Prog, r *Reporter) {
 					bad = apath(sl.X) + "[" + apath(sl.Low) + ":]"
 				}
 			}
-			construct := "copy(" + apath(site.Common().Args[0]) + ", " + apath(site.Common().Args[1]) + ")"
+			construct := bi.Name() + "(" + apath(site.Common().Args[0]) + ", " + apath(site.Common().Args[1]) + ")"
 			if bad == "" {
 				r.OKt(name, construct, p.Pos(site.Pos()), "both arguments start at element 0")
 			} else {
@@ -717,4 +738,35 @@ func leadsToPanic(p *Prog, b *ssa.BasicBlock, k int) bool {
 		}
 	}
 	return false
+}
+
+func c17r5(p *Prog, r *Reporter) {
+	dump := p.Fn("ecs.(*World).DumpEntities")
+	if dump == nil {
+		r.Anchor("ecs.(*World).DumpEntities")
+		return
+	}
+	name := p.FuncName(dump)
+	for _, b := range dump.Blocks {
+		for _, ins := range b.Instrs {
+			st, ok := ins.(*ssa.Store)
+			if !ok {
+				continue
+			}
+			fa, ok := st.Addr.(*ssa.FieldAddr)
+			if !ok || typeName(fa.X.Type()) != "EntityDump" {
+				continue
+			}
+			if _, isSl := st.Val.Type().Underlying().(*types.Slice); !isSl {
+				continue
+			}
+			f := fieldName(fa.X.Type(), fa.Field)
+			okf, why := freshSlice(st.Val, map[ssa.Value]bool{})
+			if okf {
+				r.OK(name, "EntityDump."+f+" is a copy", p.Pos(st.Pos()), "derives only from make / append to a fresh slice")
+			} else {
+				r.Bad(name, "EntityDump."+f+" is a copy", p.Pos(st.Pos()), "the dump shares storage with the world ("+why+"): later removals in the world rewrite the dump")
+			}
+		}
+	}
 }
